@@ -378,9 +378,13 @@ def km1(P, C):
 
 
 def km2(P, C):
-    C.rule("KM-2", "the stored part of an auxiliary value read from a file is one (start, length) view of cfitsio's buffer: the pair handed to "
-           "the copy is the pair every trimming step worked on — each subscript whose index involves the length uses that start pointer — and "
-           "the only characters removed are an enclosing pair of quotes (blanks are kept: FITS padding and the user's blanks cannot be told apart)", floor=3)
+    C.rule("KM-2", "the stored part of an auxiliary value read from a file is one (start, length) view: the pair handed to the copy is either "
+           "cfitsio's buffer with its length, or the decoding buffer with the number of characters decoded into it; every subscript whose index "
+           "involves the length uses that view's start pointer; the decoding loop reads only the raw buffer, inside the range it established, "
+           "and writes each output position once", floor=3)
+    C.rule("KM-3", "a quoted header value is decoded as the inverse of what fits_write_key(TSTRING) does: the enclosing quotes are left out and "
+           "every doubled quote inside is collapsed into one (FITS escapes a quote by doubling it); nothing else is removed (blanks are kept: "
+           "FITS padding and the user's blanks cannot be told apart)", floor=2)
     f = [g for g in P.fns("read_fits_core") if g.unit == "driver"][0]
     copies = []
     for i, cal in f.calls():
@@ -391,41 +395,130 @@ def km2(P, C):
     if len(copies) != 1:
         raise core.AnalysisBroken("KM-2: the copy of the kept part of an auxiliary value (copy(start, start+length, aux[i][1])) was not found")
     i, (B, L, _iv) = copies[0]
+    # raw buffer: 4th argument of fits_read_keyn
+    raw = None
+    for c_, cal in f.calls():
+        if cal and (f.call_macro(c_) or cal["name"]) in ("fits_read_keyn", "ffgkyn"):
+            a_ = f.strip(f.args(c_)[3])
+            if f.k(a_) == "DeclRefExpr":
+                raw = f.nodes[a_]["decl"]["id"]
+    if raw is None:
+        raise core.AnalysisBroken("KM-2: the raw value buffer of fits_read_keyn was not found")
+
+    def vid(x):
+        x = f.strip(x)
+        return f.nodes[x]["decl"]["id"] if f.k(x) == "DeclRefExpr" else None
+    # definitions of the view
+    bdefs = [y for y in f.walk() if ts.assign_parts(f, y) and vid(ts.assign_parts(f, y)[0]) == B and f.nodes[y].get("op") == "="]
+    ldefs = [y for y in f.walk() if ts.assign_parts(f, y) and vid(ts.assign_parts(f, y)[0]) == L and f.nodes[y].get("op") == "="]
+    binit = [d["init"] for y in f.walk() if f.k(y) == "DeclStmt" for d in f.nodes[y]["decls"] if d.get("id") == B and d.get("init", -1) >= 0]
+    linit = [d["init"] for y in f.walk() if f.k(y) == "DeclStmt" for d in f.nodes[y]["decls"] if d.get("id") == L and d.get("init", -1) >= 0]
+    starts = [vid(x) for x in binit] + [vid(ts.assign_parts(f, y)[1]) for y in bdefs]
+    ok_start = len(binit) == 1 and starts[0] == raw and all(s_ is not None for s_ in starts) and len(set(starts)) <= 2
+    dec = [s_ for s_ in starts if s_ != raw]
+    D = dec[0] if dec else None
+    # pairing: where the view switches to the decoding buffer, the length switches to the decoded count in the same block
+    paired = True
+    N = None
+    for y in bdefs:
+        comp = next((a for a in f.ancestors(y) if f.k(a) == "CompoundStmt"), None)
+        sib = [z for z in ldefs if comp is not None and comp == next((a for a in f.ancestors(z) if f.k(a) == "CompoundStmt"), None)]
+        if len(sib) != 1 or vid(ts.assign_parts(f, sib[0])[1]) is None:
+            paired = False
+        else:
+            N = vid(ts.assign_parts(f, sib[0])[1])
+    def is_end_blank_trim(y):
+        """`length--` under a test that the last character of the view (start[length-1]) is a blank: the property lets trailing blanks go"""
+        if not (f.k(y) == "UnaryOperator" and f.nodes[y]["op"] == "--" and vid(f.nodes[y]["ch"][0]) == L):
+            return False
+        for a in f.ancestors(y):
+            if f.k(a) in ("WhileStmt", "IfStmt", "ForStmt") and f.nodes[a].get("cond", -1) >= 0:
+                for z in f.walk(f.nodes[a]["cond"]):
+                    if f.k(z) == "BinaryOperator" and f.nodes[z]["op"] == "==" and f.nodes[f.strip(f.nodes[z]["ch"][1])].get("cv") == 32:
+                        l_ = f.strip(f.nodes[z]["ch"][0])
+                        if f.k(l_) == "ArraySubscriptExpr" and vid(f.nodes[l_]["ch"][0]) == B and \
+                                f.alpha(f.nodes[l_]["ch"][1])[0].replace(" ", "") == "(v0-1)" and f.alpha(f.nodes[l_]["ch"][1])[1] == [L]:
+                            return True
+        return False
+    others = [y for y in f.walk() if f.k(y) in ("UnaryOperator", "CompoundAssignOperator") and ts.assign_parts(f, y) and vid(ts.assign_parts(f, y)[0]) in (B, L)
+              and not is_end_blank_trim(y)]
+    C.ob("KM-2", "read_fits_core", "one-view", ok_start and paired and not others and len(ldefs) == len(bdefs), f.loc(i),
+         "the view starts as (raw buffer, its length) and is switched as a pair to (decoding buffer, decoded count); neither half is adjusted alone: "
+         "starts %s, paired %s, lone adjustments %d" % ([f.var_name(s_) if s_ else None for s_ in starts], paired, len(others)))
+    # subscripts indexed through the length of the view use the view's start
     bad = []
-    n = 0
     for x in f.walk():
         if f.k(x) != "ArraySubscriptExpr":
             continue
-        idx = f.nodes[x]["ch"][1]
-        if not any(f.k(y) == "DeclRefExpr" and f.nodes[y]["decl"]["id"] == L for y in f.walk(idx)):
+        if not any(f.k(y) == "DeclRefExpr" and f.nodes[y]["decl"]["id"] == L for y in f.walk(f.nodes[x]["ch"][1])):
             continue
         base = f.strip(f.nodes[x]["ch"][0])
-        n += 1
-        if f.k(base) == "DeclRefExpr" and f.nodes[base]["decl"]["id"] == B:
+        if vid(base) == B or (ts.root_member(f, base) and ts.root_member(f, base)[0] == "aux"):
             continue
-        if ts.root_member(f, base) and ts.root_member(f, base)[0] == "aux":
-            continue                                   # the terminator of the copy: aux[i][1][length]
         bad.append(x)
-    C.ob("KM-2", "read_fits_core", "one-view", not bad and n >= 2, f.loc(bad[0]) if bad else f.loc(i),
-         ("%d subscripts indexed through the length, all on the start pointer it belongs to" % n) if not bad else
-         "%s is indexed with the length of the trimmed view but is not its start pointer: a different character is tested than the one removed" % f.render(bad[0]))
-    # what may be removed: one enclosing pair of quotes, and trailing blanks (the property lets values differ in trailing blanks only)
+    C.ob("KM-2", "read_fits_core", "length-with-its-start", not bad, f.loc(bad[0]) if bad else f.loc(i),
+         "every subscript indexed through the view's length is on the view's start pointer (or the terminator of the copy)" if not bad else
+         "%s is indexed with the length of the view but is not its start pointer" % f.render(bad[0]))
+    # the decoding loop
+    okd = okq = oke = False
+    detd = "no decoding buffer: quoted values are stored as they stand in the header"
+    if D is not None and N is not None:
+        stores = [y for y in f.walk() if ts.assign_parts(f, y) and f.k(f.strip(ts.assign_parts(f, y)[0])) == "ArraySubscriptExpr" and
+                  vid(f.nodes[f.strip(ts.assign_parts(f, y)[0])]["ch"][0]) == D]
+        loops = [a for y in stores for a in f.ancestors(y) if f.k(a) == "ForStmt"][:1]
+        if len(stores) == 1 and loops:
+            Lp = loops[0]
+            st = stores[0]
+            txt, order = f.alpha(st)
+            # unquoted[n++] = value[k]
+            shape = txt.replace(" ", "") == "(v0[(v1++)]=v2[v3])"
+            cl = f.alpha(f.nodes[Lp]["cond"])
+            ini = f.nodes[Lp].get("init", -1)
+            iv = f.nodes[ini]["decls"][0] if ini >= 0 and f.k(ini) == "DeclStmt" else None
+            kid = iv["id"] if iv else None
+            from1 = iv is not None and iv.get("init", -1) >= 0 and f.nodes[f.strip(iv["init"])].get("cv") == 1
+            endv = cl[1][1] if cl[0].replace(" ", "") == "(v0<v1)" and len(cl[1]) == 2 else None
+            okd = shape and len(order) == 4 and order[0] == D and order[1] == N and order[2] == raw and order[3] == kid and from1 and endv is not None
+            # the end excludes a closing quote: end starts as the raw length and is decremented under value[end-1] == quote
+            eini = [d["init"] for y in f.walk() if f.k(y) == "DeclStmt" for d in f.nodes[y]["decls"] if d.get("id") == endv and d.get("init", -1) >= 0]
+            edec = [y for y in f.walk() if f.k(y) == "UnaryOperator" and f.nodes[y]["op"] == "--" and vid(f.nodes[y]["ch"][0]) == endv]
+            oke = len(eini) == 1 and vid(eini[0]) == L and len(edec) == 1
+            if oke:
+                g = [a for a in f.ancestors(edec[0]) if f.k(a) == "IfStmt"]
+                ct = f.alpha(f.nodes[g[0]]["cond"])[0].replace(" ", "") if g else ""
+                oke = ct == "((v0>1)&&(v1[(v0-1)]==39))" or ct == "((v0>1)&&(v1[(v0-1)]=='\\''))" or ("[(v0-1)]==" in ct and "v0>1" in ct)
+            # collapse: inside the loop, k++ under value[k]==quote && k+1<end && value[k+1]==quote
+            skips = [y for y in f.walk(f.nodes[Lp]["body"]) if f.k(y) == "UnaryOperator" and f.nodes[y]["op"] == "++" and vid(f.nodes[y]["ch"][0]) == kid]
+            if len(skips) == 1:
+                g = [a for a in f.ancestors(skips[0]) if f.k(a) == "IfStmt" and a in set(f.walk(f.nodes[Lp]["body"]))]
+                if len(g) == 1:
+                    conn, leaves = core.cond_leaves(f, f.nodes[g[0]]["cond"])
+                    ls = sorted(f.alpha(lf)[0].replace(" ", "") for lf in leaves)
+                    ids = [f.alpha(lf)[1] for lf in leaves]
+                    okq = conn == "&&" and ls == sorted(["(v0[v1]==39)", "((v0+1)<v1)", "(v0[(v1+1)]==39)"]) and \
+                        all(set(x) <= {raw, kid, endv} for x in ids)
+            nstart = [d["init"] for y in f.walk() if f.k(y) == "DeclStmt" for d in f.nodes[y]["decls"] if d.get("id") == N and d.get("init", -1) >= 0]
+            okd = okd and len(nstart) == 1 and f.nodes[f.strip(nstart[0])].get("cv") == 0
+            detd = "decoding loop: out[n++] = raw[k] for k = 1 .. end-1 (%s), end excludes the closing quote (%s), a doubled quote advances k once more (%s)" % (okd, oke, okq)
+    C.ob("KM-2", "read_fits_core", "decoding-loop", okd, f.loc(i), detd)
+    C.ob("KM-3", "read_fits_core", "enclosing-quotes-left-out", okd and oke, f.loc(i),
+         "the opening quote is skipped (k starts at 1) and the closing one excluded from the range" if okd and oke else
+         "the enclosing quotes of a FITS string value are not both left out")
+    C.ob("KM-3", "read_fits_core", "doubled-quotes-collapsed", okq, f.loc(i),
+         "inside the value, a quote followed by a quote is copied once" if okq else
+         "doubled quotes inside a string value are copied as they stand: a value such as it's comes back as it''s (FITS escapes a quote by doubling it "
+         "when fits_write_key writes a string, and fits_read_keyn returns the raw card value)")
+    # nothing else is compared or removed: character comparisons on the raw buffer are with the quote only
     cmps = []
     for x in f.walk():
         if f.k(x) == "BinaryOperator" and f.nodes[x]["op"] in ("==", "!="):
             l = f.strip(f.nodes[x]["ch"][0])
-            if f.k(l) == "ArraySubscriptExpr" and f.k(f.strip(f.nodes[l]["ch"][0])) == "DeclRefExpr" and f.nodes[f.strip(f.nodes[l]["ch"][0])]["decl"]["id"] == B:
-                at_end = any(f.k(y) == "DeclRefExpr" and f.nodes[y]["decl"]["id"] == L for y in f.walk(f.nodes[l]["ch"][1]))
-                cmps.append((f.nodes[f.strip(f.nodes[x]["ch"][1])].get("cv"), at_end))
-    okc = bool(cmps) and all(c == 39 or (c == 32 and end) for c, end in cmps)
-    C.ob("KM-2", "read_fits_core", "only-quotes-and-trailing-blanks", okc, f.loc(i),
-         "characters of the view are compared only with the quote, or with the blank at the end of the view: %s" % cmps)
-    adv = [x for x in f.walk() if f.k(x) in ("UnaryOperator", "CompoundAssignOperator") and f.nodes[x]["op"] in ("++", "+=") and
-           f.k(f.strip(f.nodes[x]["ch"][0])) == "DeclRefExpr" and f.nodes[f.strip(f.nodes[x]["ch"][0])]["decl"]["id"] == B]
-    inloop = [x for x in adv if any(f.k(a) in ("WhileStmt", "DoStmt") or (f.k(a) == "ForStmt" and B in [f.nodes[y]["decl"]["id"] for y in f.walk(f.nodes[a].get("cond", -1)) if f.k(y) == "DeclRefExpr"])
-                                    for a in f.ancestors(x))]
-    C.ob("KM-2", "read_fits_core", "start-advances-once", len(adv) == 1 and not inloop and f.nodes[adv[0]]["op"] == "++", f.loc(adv[0]) if adv else f.loc(i),
-         "the start of the view moves past the opening quote only (one increment, not in a trimming loop): %d" % len(adv))
+            if f.k(l) == "ArraySubscriptExpr" and vid(f.nodes[l]["ch"][0]) is not None and vid(f.nodes[l]["ch"][0]) in (raw, B, D):
+                cv = f.nodes[f.strip(f.nodes[x]["ch"][1])].get("cv")
+                at_end = vid(f.nodes[l]["ch"][0]) == B and f.alpha(f.nodes[l]["ch"][1])[0].replace(" ", "") == "(v0-1)" and f.alpha(f.nodes[l]["ch"][1])[1] == [L]
+                cmps.append(39 if (cv == 32 and at_end) else cv)      # a blank at the very end of the view may be examined (and dropped)
+    C.ob("KM-3", "read_fits_core", "only-quotes-examined", bool(cmps) and all(c == 39 for c in cmps), f.loc(i),
+         "characters of the value are compared with the quote only, or with the blank at the end of the view (%d comparisons)" % len(cmps))
 
 
 def run(P, C):
